@@ -7,6 +7,8 @@ RULE = ("seeded Arrays as in C14 (rank 1-6, every HDF5-representable dtype incl.
         "vectors, any unicode units / names, stacks with full / partial / auto labels) written with Array.to_h5 and read with "
         "Array.from_h5; observations: which dim vectors are stored compressed (2 entries) and with what values (bit-exact), "
         "and the array read back; compared with the Lean codec and with the direct round-trip predicate; "
+        "labels / units / names up to 600 bytes with long common prefixes; every third case changes one more calibration AFTER the "
+        "first save and saves the same object a second time (body and read-back predicted by the model and checked directly); "
         "non-trivial = at least one user-supplied dim vector; distinct by recipe hash")
 
 
